@@ -95,9 +95,9 @@ RULESETS = {
          'R-PRIMITIVES'] + [('R-WRAPPERS', ['Traph.index_batch_crawl'])] + ['R-EVERY-ITEM', 'R-CLEAR-AGREE'] + READ_BASICS + G('C03'),
  'C04': RESOLVE + ['R-BST-AGREE', 'R-TAIL-PROTOCOL', 'R-READ-RESETS', 'R-WE-ATTACH', 'R-FRESH', 'R-DIRTY-WRITTEN', 'R-ARGS-HONOURED', 'R-PREFIX-EDIT', 'R-REFUSE-CLEAN',
                    'R-LADDER-AGREE', 'R-PRIMITIVES', 'R-VARIATIONS'] + READ_BASICS + G('C04'),
- 'C05': WALK + RESOLVE + ['R-READ-RESETS', 'R-TAIL-PROTOCOL', 'R-ENUM-FILTERS', 'R-BST-AGREE', 'R-ACCUMULATE', 'R-PRIMITIVES'] + [('R-WRAPPERS', ['Traph.get_webentity_pages', 'Traph.get_webentity_crawled_pages'])] + READ_BASICS + ['R-REFUSE-CLEAN', 'R-PREFIX-EDIT', 'R-WE-ATTACH', 'R-EVERY-ITEM', 'R-ID'] + G('C05'),
+ 'C05': WALK + RESOLVE + ['R-READ-RESETS', 'R-TAIL-PROTOCOL', 'R-ENUM-FILTERS', 'R-BST-AGREE', 'R-ACCUMULATE', 'R-PRIMITIVES'] + [('R-WRAPPERS', ['Traph.get_webentity_pages', 'Traph.get_webentity_crawled_pages'])] + READ_BASICS + ['R-REFUSE-CLEAN', 'R-PREFIX-EDIT', 'R-WE-ATTACH', 'R-EVERY-ITEM', 'R-ID', 'R-CRAWLED'] + G('C05'),
  'C06': ['R-LADDER-AGREE', 'R-TRACK-AGREE', 'R-RULES-TO-APPLY', 'R-ID', 'R-RULE-INSTALL', 'R-WE-ATTACH', 'R-VARIATIONS', 'R-BST-AGREE', 'R-SKIP-CHILDLESS', 'R-PREFIX-EDIT',
-         'R-FRESH', 'R-DIRTY-WRITTEN', 'R-PRIMITIVES'] + [('R-WRAPPERS', ['Traph.add_webentity_creation_rule'])] + ['R-OPEN-TABLE', ('R-READONLY', ['Traph.get_potential_prefix'])] + ['R-CLEAR-AGREE', 'R-LRU-ASSEMBLY', 'R-GEN-DRAINED'] + G('C06'),
+         'R-FRESH', 'R-DIRTY-WRITTEN', 'R-PRIMITIVES'] + [('R-WRAPPERS', ['Traph.add_webentity_creation_rule'])] + ['R-OPEN-TABLE', ('R-READONLY', ['Traph.get_potential_prefix'])] + ['R-CLEAR-AGREE', 'R-LRU-ASSEMBLY', 'R-GEN-DRAINED'] + READ_BASICS + G('C06'),
  'C07': ['R-PROPAGATE', ('R-FILTER-AGREE', NETWORK), ('R-MEMO-KEY', NETWORK), ('R-NULL-HEAD', NETWORK), 'R-NO-STALE-CACHE', 'R-LRU-ASSEMBLY', 'R-ARGS-HONOURED', 'R-NEAREST-WE',
          ('R-ACCUMULATE', NETWORK + ['Traph.index_batch_crawl_iter']), 'R-NULL-THRESHOLD'] + LINKS + READ_BASICS + [('R-WRAPPERS', NETWORK)] + ['R-NODE-ALIAS'] + ['R-EVERY-ITEM'] + G('C07'),
  'C08': [('R-NULL-HEAD', WE_LINKS), ('R-FILTER-AGREE', WE_FILTERS + WE_LINKS), ('R-MEMO-KEY', ['!Traph.get_webentities_*']), 'R-NO-STALE-CACHE', 'R-DISTINCT-DEGREE',
@@ -107,7 +107,7 @@ RULESETS = {
          ('R-PAGINATE', PAGELINK_PAGING), 'R-RELEVANCE', 'R-EVERY-PREFIX', 'R-NO-EARLY-EXIT', 'R-LINK-WALK', 'R-NEAREST-WE', ('R-ACCUMULATE', WE_FILTERS)] + READ_BASICS + ['R-NODE-ALIAS'] + ['R-NO-STALE-CACHE', 'R-LRU-ASSEMBLY'] + G('C10'),
  'C11': ['R-OPEN-TABLE', 'R-CLEAR-AGREE', 'R-GEOMETRY', 'R-ID', 'R-DIRTY-WRITTEN', 'R-STORAGE-SEM', 'R-STORAGE-IFACE', 'R-RULE-INSTALL', 'R-CLOSE', 'R-STORAGE-STATELESS',
          'R-PRIMITIVES', 'R-GEN-DRAINED', 'R-LINK-WALK'] + G('C11'),
- 'C12': ['R-ID', 'R-DIRTY-WRITTEN', 'R-STORAGE-IFACE', 'R-STORAGE-SEM', 'R-REFUSE-CLEAN', 'R-PRIMITIVES', 'R-PREFIX-EDIT', 'R-STORAGE-STATELESS'] + ['R-OPEN-TABLE', 'R-CLEAR-AGREE'] + G('C12'),
+ 'C12': ['R-ID', 'R-DIRTY-WRITTEN', 'R-STORAGE-IFACE', 'R-STORAGE-SEM', 'R-REFUSE-CLEAN', 'R-PRIMITIVES', 'R-PREFIX-EDIT', 'R-STORAGE-STATELESS'] + ['R-OPEN-TABLE', 'R-CLEAR-AGREE'] + READ_BASICS + G('C12'),
  'C13': ['R-WE-ATTACH', 'R-ANCESTOR-FLAG', 'R-SKIP-CHILDLESS', 'R-HIERARCHY', 'R-FRESH', 'R-DIRTY-WRITTEN', 'R-EVERY-PREFIX', 'R-ARGS-HONOURED', 'R-NO-EARLY-EXIT',
          'R-PRIMITIVES', 'R-NEAREST-WE', ('R-ACCUMULATE', ['Traph.get_webentity_child_webentities_iter', 'Traph.get_webentity_parent_webentities']), 'R-LRU-ASSEMBLY'] + MONO + [('R-WRAPPERS', ['Traph.get_webentity_child_webentities'])] + ['R-NODE-ALIAS'] + READ_BASICS + G('C13'),
  'C14': ['R-READONLY', 'R-WRITE-API'],
